@@ -606,7 +606,9 @@ theorem ruleEntity_sim {s : Bool} {cfg : Cfg} {a b : IState} {silent : Bool} {r 
 theorem ruleAutolink_sim {s : Bool} {a b : IState} {silent : Bool} {r : Option Nat × IState}
     (rel : IRel K s a b) (h : ruleAutolink a silent = .ok r) :
     Sim s (ORel K s) r (ruleAutolink b silent) := by
-  have hst : ∀ n a', r = (some n, a') → CharSolid a.src a.pos := fun n a' e => ruleAutolink_start (e ▸ h)
+  have hwf : C05.WFMap a.srcmap := rel.ks.2.1 ▸ K.ok₁.wf
+  have hst : ∀ n a', r = (some n, a') → CharSolid a.src a.pos ∧ a'.pos + n ≤ a.posMax := fun n a' e =>
+    ⟨(ruleAutolink_start (e ▸ h)).1, c05x_autolink_end (ruleAutolink_start (e ▸ h)).2 hwf (e ▸ h)⟩
   obtain ⟨m, cs, rfl, hm, hc⟩ := rel.out
   unfold ruleAutolink IState.window at h ⊢
   simp only [] at h ⊢
@@ -622,7 +624,10 @@ theorem ruleAutolink_sim {s : Bool} {a b : IState} {silent : Bool} {r : Option N
   · simp only [e2]
     rcases (getMapSt_sim (cs := cs) hm hg2).cases with ⟨r₃, e3, hr3⟩ | ⟨hs, e, e3⟩
     · simp only [e3]
-      exact ⟨rfl, push_rel hm hc rel.ks (NRel.mk' hr.1 (fun _ => span_of_KS rel.ks hr.2 (hst _ _ rfl))
+      have hend := (hst _ _ rfl).2
+      simp only [IState.push] at hend
+      exact ⟨rfl, push_rel hm hc rel.ks (NRel.mk' hr.1
+        (fun _ => span_of_KS rel.ks hr.2 (hst _ _ rfl).1 (by omega))
         (LRel.single (newText_rel _ hr3.1)))⟩
     · simp only [e3]; exact hs
   · simp only [e2]; exact hs
@@ -630,6 +635,9 @@ theorem ruleAutolink_sim {s : Bool} {a b : IState} {silent : Bool} {r : Option N
 theorem ruleBackticks_sim {s : Bool} {a b : IState} {silent : Bool} {r : Option Nat × IState}
     (rel : IRel K s a b) (h : ruleBackticks a silent = .ok r) :
     Sim s (ORel K s) r (ruleBackticks b silent) := by
+  have hwf : C05.WFMap a.srcmap := rel.ks.2.1 ▸ K.ok₁.wf
+  have hend : ∀ n a', r = (some n, a') → a.pos < a.posMax → a'.pos + n ≤ a.posMax :=
+    fun n a' e hlt => c05x_backticks_end hlt hwf (e ▸ h)
   obtain ⟨m, cs, rfl, hm, hc⟩ := rel.out
   unfold ruleBackticks at h ⊢
   simp only [] at h ⊢
@@ -642,12 +650,15 @@ theorem ruleBackticks_sim {s : Bool} {a b : IState} {silent : Bool} {r : Option 
   · rename_i hrun _ nd hnd _ _ hg1 _ _ hg2
     have hcn := codeRun_start hrun
     have hrs := (run_node_shape _ _ _ _ _ _ _ _ _ _ _ hrun hnd).1
+    have hre := (run_node_shape _ _ _ _ _ _ _ _ _ _ _ hrun hnd).2.1
+    have hend' := hend _ _ rfl hcn.2
+    simp only [] at hend'
     rcases (getMapSt_sim (cs := cs) hm hg1).cases with ⟨r₂, e2, hr⟩ | ⟨hs, e, e2⟩
     · simp only [e2]
       rcases (getMapSt_sim (cs := cs) hm hg2).cases with ⟨r₃, e3, hr3⟩ | ⟨hs, e, e3⟩
       · simp only [e3]
         exact ⟨rfl, IRel.mk' (a := { a with backticks := _, children := _ }) hm
-          (hc.snoc (NRel.mk' hr.1 (fun _ => span_of_KS rel.ks hr.2 (hrs ▸ hcn))
+          (hc.snoc (NRel.mk' hr.1 (fun _ => span_of_KS rel.ks hr.2 (hrs ▸ hcn.1) (by omega))
             (LRel.single (newText_rel _ hr3.1)))) rel.ks⟩
       · simp only [e3]; exact hs
     · simp only [e2]; exact hs
